@@ -168,7 +168,7 @@ def evaluate(cases: list[dict[str, Any]], envs: list[dict[str, str]], col: Colle
 def shards(tier: str) -> list[dict[str, Any]]:
     if tier == "quick":
         return [{"n": 500, "envs": 4} for _ in range(4)]
-    return [{"n": 2500, "envs": 8} for _ in range(2)]
+    return [{"n": 6000, "envs": 8} for _ in range(4)]
 
 
 def run_shard(spec: dict[str, Any], seed: int) -> Collector:
